@@ -311,9 +311,8 @@ func checkC09(c *Check) {
 	// evaluate the complete table per classifier
 	allowedAlt := func(o outcome) bool {
 		// alternatives that are not classifications of the seeded wait status
-		if o.status == "StatusNormal" && o.finished == "false" {
-			return true // (ptracer) not the main pid / not finished
-		}
+		// (no alternative "Normal, not finished": the tables are evaluated for the main pid, whose end must end the run
+		// on every path; a report that is dropped would leave the wait loop waiting for a child that is gone)
 		if o.status == "StatusRunnerError" && o.errStr != `""` && o.errStr != "" {
 			return true // runner fault with explanation (e.g. exit before exec)
 		}
